@@ -1,17 +1,35 @@
 //! rvh: runs the raindb implementation on the same case files as the extracted Coq model
 //! (ocaml/driver) and prints one canonical result line per case.
 use std::io::{BufRead, BufWriter, Write};
+use std::sync::mpsc;
+use std::sync::Mutex;
+use std::time::Duration;
 
 mod simfs;
+mod suite_db;
 mod suite_filter;
 mod suite_log;
 mod suite_table;
 mod suite_version;
 mod util;
 
+/// panics on threads other than the case worker (e.g. the database's compaction thread)
+pub static BACKGROUND_PANICS: Mutex<Vec<String>> = Mutex::new(Vec::new());
+
 fn main() {
-    // Panics inside a case are caught and reported in the result line; keep stderr quiet.
-    std::panic::set_hook(Box::new(|_| {}));
+    std::panic::set_hook(Box::new(|info| {
+        let t = std::thread::current();
+        let name = t.name().unwrap_or("?").to_string();
+        if !name.starts_with("case") {
+            let msg = format!("{}@{}", name, info.to_string().replace(['\n', ' '], "_"));
+            // a worker whose `DB::open` failed panics on the closed task channel
+            // (compaction/worker.rs receiver.recv().unwrap()): not the thread of an open database
+            if msg.contains("RecvError") {
+                return;
+            }
+            BACKGROUND_PANICS.lock().unwrap().push(msg);
+        }
+    }));
     let args: Vec<String> = std::env::args().collect();
     let suite = args[1].as_str();
     let f: fn(&str) -> String = match suite {
@@ -23,8 +41,15 @@ fn main() {
         "block" => suite_table::run_block,
         "table" => suite_table::run_table,
         "vfn" => suite_version::run_vfn,
+        "dbhist" => suite_db::run_dbhist,
         _ => panic!("unknown suite {}", suite),
     };
+    let timeout = Duration::from_secs(
+        std::env::var("RVH_CASE_TIMEOUT")
+            .ok()
+            .and_then(|s| s.parse().ok())
+            .unwrap_or(120),
+    );
     let stdin = std::io::stdin();
     let stdout = std::io::stdout();
     let mut out = BufWriter::new(stdout.lock());
@@ -33,11 +58,23 @@ fn main() {
         if line.is_empty() {
             continue;
         }
+        let id = line.split(' ').next().unwrap_or("?").to_string();
+        let (tx, rx) = mpsc::channel();
         let l2 = line.clone();
-        let res = std::panic::catch_unwind(move || f(&l2));
-        match res {
-            Ok(s) => writeln!(out, "{}", s).unwrap(),
-            Err(e) => {
+        let handle = std::thread::Builder::new()
+            .name("case".to_string())
+            .stack_size(256 << 20)
+            .spawn(move || {
+                let res = std::panic::catch_unwind(move || f(&l2));
+                let _ = tx.send(res);
+            })
+            .unwrap();
+        let text = match rx.recv_timeout(timeout) {
+            Ok(Ok(s)) => {
+                let _ = handle.join();
+                s
+            }
+            Ok(Err(e)) => {
                 let msg = if let Some(s) = e.downcast_ref::<String>() {
                     s.clone()
                 } else if let Some(s) = e.downcast_ref::<&str>() {
@@ -45,9 +82,16 @@ fn main() {
                 } else {
                     "?".to_string()
                 };
-                let id = line.split(' ').next().unwrap_or("?");
-                writeln!(out, "{} HARNESS-PANIC {}", id, msg.replace('\n', " ")).unwrap()
+                format!("{} HARNESS-PANIC {}", id, msg.replace('\n', " "))
             }
+            Err(_) => format!("{} HANG", id),
+        };
+        let bg: Vec<String> = BACKGROUND_PANICS.lock().unwrap().drain(..).collect();
+        if bg.is_empty() {
+            writeln!(out, "{}", text).unwrap();
+        } else {
+            writeln!(out, "{} BGPANIC[{}]", text, bg.join("|")).unwrap();
         }
+        out.flush().unwrap();
     }
 }
